@@ -385,6 +385,37 @@ namespace
 	    || (sg ? zw_value_const_i64 (z) != k.value ().sval ()
 		   : zw_value_const_u64 (z) != k.value ().uval ()))
 	  api_bad ("zw_value_const_*", "signedness or number differ");
+	// the two fallible formatting calls: what they return is the library's
+	// own rendering (full / brief), or NULL with an error -- never an exception
+	for (int brief = 0; brief < 2; ++brief)
+	  {
+	    std::string m;
+	    zw_value *fv = wrap (brief ? "zw_value_const_format_brief"
+				       : "zw_value_const_format",
+				 [&] (zw_error **e) {
+		return brief ? zw_value_const_format_brief (z, e)
+			     : zw_value_const_format (z, e); }, &m);
+	    if (fv != nullptr)
+	      {
+		std::stringstream s2;
+		bool ok = true;
+		try
+		  {
+		    s2 << constant {k.value (), k.dom (),
+				    brief ? brevity::brief : brevity::full};
+		  }
+		catch (...)
+		  {
+		    ok = false;
+		  }
+		size_t len = 0;
+		char const *str = zw_value_is_str (fv)
+		  ? zw_value_str_str (fv, &len) : nullptr;
+		if (str == nullptr || (ok && std::string (str, len) != s2.str ()))
+		  api_bad ("zw_value_const_format*", "differs from the rendering");
+		zw_value_destroy (fv);
+	      }
+	  }
       }
     else if (auto q = value::as <value_seq> (&v))
       {
